@@ -301,3 +301,30 @@ def histories_flags(wd, results, name="system"):
             for line, guard in val:
                 flags.append((sowner[line - 1], guard, sev[line - 1]))
     return flags, r
+
+
+def design_check(v, deviations):
+    """model-check the design half of System.tla (actors through the monitor; safety + liveness) and the named deviations,
+    each of which TLC must refute (non-vacuity of the guards / invariants)."""
+    r = tlc.run("MCSystem", "System_mc.cfg", workers=6, timeout=900, heap="6g")
+    v.add_tlc(r, "System (design half: two runs, a compaction job and a task on one thread, one workspace permit, frames through the monitor): "
+                 "MonitorAccepts, NoOverlap, HolderExecutes, FrameOrder, OwedBeforeRunEnd; liveness EveryoneFinishes, RunsEnd")
+    if not r.ok:
+        log(r.out[-2500:])
+        die_tool("System.tla: the design violates its own properties (specification error)")
+    for cfg, inv in deviations:
+        d = tlc.run("MCSystem", cfg, workers=4, timeout=600)
+        v.add_tlc(d, f"System with a named deviation ({cfg}): counterexample to {inv} expected")
+        if inv not in d.violated:
+            log(d.out[-1500:])
+            die_tool(f"{cfg}: expected counterexample to {inv} not found (vacuous guard?)")
+    v.cov["system_design"] = {"distinct_states": r.distinct, "depth": r.depth, "deviations_refuted": [c for c, _ in deviations]}
+
+
+def design_check_deviations_only(v, deviations):
+    for cfg, inv in deviations:
+        d = tlc.run("MCSystem", cfg, workers=4, timeout=600)
+        v.add_tlc(d, f"System with a named deviation ({cfg}): counterexample to {inv} expected")
+        if inv not in d.violated:
+            log(d.out[-1500:])
+            die_tool(f"{cfg}: expected counterexample to {inv} not found (vacuous guard?)")
